@@ -145,11 +145,11 @@ Theorem elem_group_unit jsx pos e :
   selem_ok e -> jsx_ok jsx e -> unit_toks jsx (GE (elem_leaf pos e)) (elem_toks pos e).
 Proof. intros H Hj. apply ut_elem. apply elem_gblock; assumption. Qed.
 
-(* `(a.x>b[c=1])*2+d#e` as tokens: a group of two attribute elements, repeated, then a sibling *)
+(* `(a.x>b[c=1])*2+d##e` as tokens: a group of two attribute elements, repeated, then a sibling *)
 Example group_of_attribute_elements :
-  let a := mkSElem [97%N] [PClass [120%N]] None false in
+  let a := mkSElem [97%N] [PClass 0 [120%N]] None false in
   let b := mkSElem [98%N] [PSet [mkSAttr false [99%N] false (SUnq [49%N])]] None false in
-  let d := mkSElem [100%N] [PId [101%N]] None false in
+  let d := mkSElem [100%N] [PId 1 [101%N]] None false in
   let br o p := mkTok (TBracket o BGroup) p (p + 1) in
   let op o p := mkTok (TOperator o) p (p + 1) in
   let rp := mkTok (TRepeater 2 0 false) 13 15 in
